@@ -371,7 +371,7 @@ impl Property for C13 {
         "C13"
     }
     fn rule(&self) -> String {
-        "the same scenario scripts: appends from several peers (call output or call + ap), `(fold $s i (par|seq BODY (next i)))` at peer F (in a third of the cases preceded by another par-next fold over $s at F), then a local `(canon F $s #loc)` with a probe. BODY is `(call F (\"visit\" \"v\") [i])`, in two thirds of the cases followed by a recursive append `(xor (match i.$.n 0 (call T (\"app\" \"rec\") [i] $s)) (null))` whose result depends on its trigger and recurses 2-3 levels deep; T is F itself (mode 1) or the peer named by the element, `i.$.p` (mode 2: recursion levels produced on several peers and merged back). Oracles: (1) F never visits a value twice (no two visit requests with the same argument); (2) with the par-next shape, once everything is delivered the visited values are exactly the stream values in F's final data (including late and recursive appends), each once; (3) the local canon holds exactly the stream values F's data held before the canon entry in the run that produced it (as multisets: nothing duplicated or lost by merging), and the probe receives them. Non-trivial = F received the stream values in >= 2 deliveries and visited >= 3 values; distinct by (script, schedule) hash".into()
+        "the same scenario scripts: appends from several peers (call output or call + ap), `(fold $s i (par|seq BODY (next i)))` at peer F (in a third of the cases preceded by another par-next fold over $s at F), then a local `(canon F $s #loc)` with a probe. BODY is `(call F (\"visit\" \"v\") [i])`, in two thirds of the cases followed by a recursive append `(xor (match i.$.n 0 (call T (\"app\" \"rec\") [i] $s)) (null))` whose result depends on its trigger and recurses 2-3 levels deep; T is F itself (mode 1) or the peer named by the element, `i.$.p` (mode 2: recursion levels produced on several peers and merged back). Oracles: (1) F never visits a value twice (no two visit requests with the same argument); (2a) with the par-next shape every stream value of the data delivered to F is in the data F produces from it; (2) with the par-next shape, once everything is delivered the visited values are exactly the stream values in F's final data (including late and recursive appends), each once; (3) the local canon holds exactly the stream values F's data held before the canon entry in the run that produced it (as multisets: nothing duplicated or lost by merging), and the probe receives them. Non-trivial = F received the stream values in >= 2 deliveries and visited >= 3 values; distinct by (script, schedule) hash".into()
     }
     fn assumptions(&self) -> Vec<String> {
         vec!["values are unique by construction (one service function per append; the recursive append is a hash of its trigger and level)".into(), "the seq-next shape may legitimately stop at a pending visit: completeness (2) is asserted for the par-next shape only".into()]
@@ -449,6 +449,28 @@ impl Property for C13 {
                         let mut v = viol("C13:stream-order-differs", format!("canon at F {:?} vs (generation, position) order {:?}", vals, exp), &sc, &log, r.step);
                         v.detail["trace"] = json!(crate::model::show::trace(&d.data));
                         return CaseResult::Violation(v, rep);
+                    }
+                }
+            }
+        }
+        // (2a) nothing lost by merging: with the par-next shape (every iteration is reached in every
+        // run) the stream values of the data delivered to F are all in the data F produces
+        if case.shape == 1 {
+            for r in &log {
+                if r.peer != sc.folder || r.cur.is_empty() || r.out.ret_code != 0 {
+                    continue;
+                }
+                if let (Ok(dc), Ok(dn)) = (decode_data(&r.cur), decode_data(&r.out.data)) {
+                    let cur_vals = multiset(&stream_before(&dc.data, dc.data.trace.len()));
+                    let new_vals = multiset(&stream_before(&dn.data, dn.data.trace.len()));
+                    rep.classes.push("delivered_stream_values_kept_checked".into());
+                    for (k, n) in &cur_vals {
+                        if new_vals.get(k).cloned().unwrap_or(0) < *n {
+                            let mut vi = viol("C13:delivered-append-lost", format!("F merged data holding {} x the stream value {} but its new data holds {}", n, k, new_vals.get(k).cloned().unwrap_or(0)), &sc, &log, r.step);
+                            vi.detail["trace"] = json!(crate::model::show::trace(&dn.data));
+                            vi.detail["current"] = json!(crate::model::show::trace(&dc.data));
+                            return CaseResult::Violation(vi, rep);
+                        }
                     }
                 }
             }
